@@ -305,7 +305,8 @@ Print Assumptions C10_prm_complete.
        jacobi w (p*q) = -1 -> 0 < w < p*q -> Forall (fun y => 0 <= y < p*q /\ Z.gcd y (p*q) = 1) ys ->
        mod_verify (p*q) w (mod_respond p q w ys) ys = Some true.
    Proved below: every repetition verifies when the candidate chosen by makeQuadraticResidue passes isQRmodPQ
-   (by construction for the first three candidates) and Euler's theorem holds for y.  Missing: the quadratic-residuosity
+   (by construction for the first three candidates) and Euler's theorem holds for y.  Missing: X and Z are units in
+   [1, N) (Proof.IsValid, called by Verify since the zkmod fix; negligible failure for y sharing a factor with N), the quadratic-residuosity
    fact that the fourth candidate is a residue when the first three are not (Euler's criterion modulo p and q and
    jacobi w = -1), probably_prime (p*q) = false, and the instantiation of Euler's theorem (PaillierProofs.euler_N). *)
 Theorem C10_mod_complete_partial :
@@ -541,14 +542,14 @@ Proof. exact mul_range_partial. Qed.
 Print Assumptions C10_mul_response_range_enforced_partial.
 
 
-(* zkmod: Proof.IsValid is never called by Verify (nor by the callers in protocols/cmp/keygen): X and Z are not range checked.
-   C10_mod_response_range_enforced_todo:  ~ (0 <= x < n) -> mod_verify rejects     is REFUTED by the model of the code: *)
-Theorem C10_mod_response_range_enforced_refuted :
-  exists (n w : Z) (rs : list (bool * bool * Z * Z)) (ys : list Z),
-    mod_verify n w rs ys = Some true /\
-    Forall (fun '(_, _, x, z) => ~ 0 <= x < n /\ ~ 0 <= z < n) rs /\ rs <> [].
-Proof. exact mod_response_range_refuted. Qed.
-Print Assumptions C10_mod_response_range_enforced_refuted.
+(* zkmod: since the fix "zkmod.Verify validates W and the responses" (Verify calls Proof.IsValid) every X and Z must be
+   in [1, N); a response outside is rejected.  The verifier before the fix is kept as [mod_verify_v0] with its
+   refutation witness as a regression example (ex_mod_v0_range_refuted below). *)
+Theorem C10_mod_response_range_enforced :
+  forall (n w : Z) (rs : list (bool * bool * Z * Z)) (ys : list Z),
+  Exists (fun '(_, _, x, z) => ~ 0 < x < n \/ ~ 0 < z < n) rs -> mod_verify n w rs ys = Some false.
+Proof. exact mod_range_enforced. Qed.
+Print Assumptions C10_mod_response_range_enforced.
 
 
 (* zkfac: Proof.Sigma (part of the first message in the paper) is not an input of the challenge; proofs are malleable in (Sigma, V). *)
@@ -816,6 +817,14 @@ Proof. vm_compute. repeat split. Qed.
 
 Example ex_mod_honest : mod_verify 77 2 mod_example_rs mod_example_ys = Some true.
 Proof. exact mod_example_honest. Qed.
+
+(* regression: the verifier before the zkmod fix accepted responses shifted by N (outside [0, N)); the current one rejects them *)
+Example ex_mod_v0_range_refuted :
+  exists (n w : Z) (rs : list (bool * bool * Z * Z)) (ys : list Z),
+    mod_verify_v0 n w rs ys = Some true /\
+    Forall (fun '(_, _, x, z) => ~ 0 <= x < n /\ ~ 0 <= z < n) rs /\ rs <> [] /\
+    mod_verify n w rs ys = Some false.
+Proof. exact mod_v0_response_range_refuted. Qed.
 
 Example ex_challenge_fields :   (* the item list of zkenc and the well-formedness of its fields *)
   forallb fld_wf (enc_fields 77 64 4 77 100 5 6 7) = true /\
